@@ -43,7 +43,7 @@ CLAIMED = {
                 "size, no residue of the dropped prime enters the arithmetic modulo another prime unreduced (it is reduced "
                 "under that prime, copied under a comparison of the two moduli, or operated on under its own prime), and "
                 "every in-place operation of src/util/rns.rs on residue slot s uses the precomputed operand, modulus and "
-                "NTT table of prime s (slot and index expressions compared as symbolic polynomials). R-SHAPE(baselen): the number of primes handed to the BEHZ base B equals the counter of the sizing rule (symbolic length of the prime list). R-RESDOM(half): every centring threshold / rounding offset defined as a shifted modulus value in the RNS tool is exactly half of it.",
+                "NTT table of prime s (slot and index expressions compared as symbolic polynomials). R-SHAPE(baselen): the number of primes handed to the BEHZ base B equals the counter of the sizing rule (symbolic length of the prime list). R-RESDOM(half): every centring threshold / rounding offset defined as a shifted modulus value in the RNS tool is exactly half of it. R-RESDOM(negskip) as under C01.",
         "note": _TB + "Not decided: every integer specification itself (CRT bijectivity, conversion error bounds, "
                 "Montgomery / floor / Shenoy-Kumaresan exactness, round-to-nearest, value modulo t, scale-and-round) — "
                 "value-level facts outside static shape analysis; the BEHZ converters iterate with zip adaptors and "
@@ -56,7 +56,7 @@ CLAIMED = {
                 "util::uintsmallmod and util::number_theory: every non-constant output depends (data or control) on "
                 "the contents of every value operand at every normal return, in/out operands are not killed before "
                 "they are read, and no out-parameter is read before it is written. An output that ignores an operand "
-                "on a path whose condition does not fix that operand cannot equal the named operation. Also: no in-place word loop reads a position an earlier iteration of the same loop has overwritten (store/load index polynomials and direction of travel), and no left shift is performed in a narrower integer type than its cast target. Every operand of add_u64_mod / sub_u64_mod / negate_u64_mod is a residue or a residue-buffer element (R-RESIDUE: provenance followed through lets, `if` values and, for parameters, every call site in the crate); a quotient, plain arithmetic or a float cast as operand is refused. Sinks also include MultiplyU64ModOperand::new (operand below the modulus) and parameters that a *_mod primitive returns unchanged on some path (derived: exponentiate_u64_mod). R-DEFFORM(quotient): the precomputed quotient of a multiplication operand is assigned from an exact 128-by-64 division, not assembled from the rounded Barrett ratio.",
+                "on a path whose condition does not fix that operand cannot equal the named operation. Also: no in-place word loop reads a position an earlier iteration of the same loop has overwritten (store/load index polynomials and direction of travel), and no left shift is performed in a narrower integer type than its cast target. Every operand of add_u64_mod / sub_u64_mod / negate_u64_mod is a residue or a residue-buffer element (R-RESIDUE: provenance followed through lets, `if` values and, for parameters, every call site in the crate); a quotient, plain arithmetic or a float cast as operand is refused. Sinks also include MultiplyU64ModOperand::new (operand below the modulus) and parameters that a *_mod primitive returns unchanged on some path (derived: exponentiate_u64_mod). R-DEFFORM(quotient): the precomputed quotient of a multiplication operand is assigned from an exact 128-by-64 division, not assembled from the rounded Barrett ratio. R-CONTRA(carry) over the whole crate.",
         "note": _TB + "Not decided: exactness itself (Barrett estimates, carries, quotient digits) — a solver or "
                 "enumeration question, which is a different technique family. Callees are modelled by weak updates "
                 "with a short table of strong kills; loops are assumed to run at least once for the written-before-read clause.",
@@ -105,7 +105,7 @@ CLAIMED = {
                 "precondition reaches the ladder through a refusing guard (all-pairs coprimality refusal in RNSBase::new; "
                 "refusal propagation validate <- create_ntt_tables <- NTTTables::new <- try_minimal_primitive_root <- "
                 "try_primitive_root with the up-front 2N | q-1 refusal); identifier reproducibility (compute_parms_id reads "
-                "every hashed field, writers of hashed fields recompute on every path, nothing nondeterministic reachable). Also: the words of the parms_id hash input are stored at pairwise distinct positions for every chain length. Chain construction (R-CHAIN): partially evaluating HeContext::new under each value of the parameters' boolean flag getters never folds the branch around the expansion loop to never-taken; create_next_context_data builds the one-shorter prefix (single pop of the copied moduli), refuses before linking, links both ways from the map entry of the previous id and registers the level under its own id; the expansion loop advances cursor and last id after the zero test; chain indices count down by one per level to 0. R-CONSTDEF(form): a scalar constant copied with a literal index out of a buffer that validate converts in place to RNS form is read before the conversion.",
+                "every hashed field, writers of hashed fields recompute on every path, nothing nondeterministic reachable). Also: the words of the parms_id hash input are stored at pairwise distinct positions for every chain length. Chain construction (R-CHAIN): partially evaluating HeContext::new under each value of the parameters' boolean flag getters never folds the branch around the expansion loop to never-taken; create_next_context_data builds the one-shorter prefix (single pop of the copied moduli), refuses before linking, links both ways from the map entry of the previous id and registers the level under its own id; the expansion loop advances cursor and last id after the zero test; chain indices count down by one per level to 0. R-CONSTDEF(form): a scalar constant copied with a literal index out of a buffer that validate converts in place to RNS form is read before the conversion. R-CONTRA(carry): the carry / borrow returned by a single-word add / sub whose result goes into a word of a multi-word buffer is not discarded.",
         "note": _TB + "Not decided: that accepted parameters satisfy the mathematics as values, collision freedom of the "
                 "hash, primality of generated moduli, panic freedom of the whole constructor tree, equality of "
                 "precomputed constants with their definitions.",
@@ -144,7 +144,7 @@ CLAIMED = {
                 "of public-key encryption uses the routine of the ciphertext's representation, results leave with data "
                 "matching their flag; the stored seed is written and expanded at the same address and length; the metadata "
                 "recorded on a fresh encryption is the one the scheme implies (CKKS: the plaintext's own level and scale, "
-                "BFV/BGV: the first level; representation flag; correction factor 1) in every encrypt form. In scaling_variant / encryptor / rlwe every operand of add_u64_mod / sub_u64_mod / negate_u64_mod is a residue or a residue-buffer element (R-RESIDUE: provenance followed through lets, `if` values and, for parameters, every call site in the crate); a quotient, plain arithmetic or a float cast as operand is refused. MultiplyU64ModOperand::new's operand is a sink of R-RESIDUE as well (the precomputed quotient fits a word only below the modulus).",
+                "BFV/BGV: the first level; representation flag; correction factor 1) in every encrypt form. In scaling_variant / encryptor / rlwe every operand of add_u64_mod / sub_u64_mod / negate_u64_mod is a residue or a residue-buffer element (R-RESIDUE: provenance followed through lets, `if` values and, for parameters, every call site in the crate); a quotient, plain arithmetic or a float cast as operand is refused. MultiplyU64ModOperand::new's operand is a sink of R-RESIDUE as well (the precomputed quotient fits a word only below the modulus). R-RESDOM(negskip): no negation of a residue operand is control-dependent on a `scalar != 1` identity shortcut.",
         "note": _TB + "Not decided: that decryption returns the plaintext, any noise bound, CKKS encoding error.",
         "technique": "constant propagation of dispatch flags + scheme projection + representation typestate + symbolic metadata + address agreement",
         "design_ref": "DESIGN.md §4 C01",
@@ -171,7 +171,7 @@ CLAIMED = {
                 "normally-returning path lacks a refusing branch on the levels of both ciphertexts, on the scales of "
                 "both operands, or on the resulting scale against the modulus size (interprocedural guard dominance); the scale recorded by "
                 "multiply / square / multiply_plain / rescale is the product or quotient the operation implies (symbolic "
-                "metadata); the shared key-switch and add/sub back ends satisfy the slot/prime and mode-flag rules of C02. Also: every is_scale_within_bounds test uses the context data of the level recorded on the result. R-TENSOR: in the ciphertext-by-ciphertext product of CKKS the slice indices of every dyadic product add up to the output component and the largest index into each operand is min(i, that operand's own size - 1) (symbolic maxima over the summation loop).",
+                "metadata); the shared key-switch and add/sub back ends satisfy the slot/prime and mode-flag rules of C02. Also: every is_scale_within_bounds test uses the context data of the level recorded on the result. R-TENSOR: in the ciphertext-by-ciphertext product of CKKS the slice indices of every dyadic product add up to the output component and the largest index into each operand is min(i, that operand's own size - 1) (symbolic maxima over the summation loop). The scale tested by is_scale_within_bounds is the scale recorded on the result.",
         "note": _TB + "Not decided: the numerical error bound, the tolerance used when comparing scales, and the "
                 "floating-point value of the recorded scale (only its symbolic form over the operands' scales).",
         "technique": "scheme-projected guard-dominance dataflow + symbolic metadata over typed HIR with callee summaries + guard-argument / result-level agreement",
@@ -219,7 +219,7 @@ CLAIMED = {
                 "generator the stored seed and mask derive from it only; nothing nondeterministic is reachable from the "
                 "generator's stream and refill hashes exactly (seed, counter); ternary / binomial samples are drawn once "
                 "per coefficient outside the RNS-component loop; the seed is stored and expanded at the same address and "
-                "length through from_seed -> uniform. Also: the error polynomial of every encryption worker is drawn from an entropy generator created inside the call.",
+                "length through from_seed -> uniform. Also: the error polynomial of every encryption worker is drawn from an entropy generator created inside the call. Word draws (next_u32 / next_u64) refill exactly when fewer than a word's bytes are left in the block (symbolic refill condition on the inlined view).",
         "note": _TB + "Not decided: independence of the stream from read chunking, non-repetition, difference between "
                 "seeds, distribution shape, the bound 21.",
         "technique": "generator-kind provenance dataflow + who-may-call + loop-nesting of draw sites + address agreement + noise-generator provenance",
@@ -234,7 +234,7 @@ CLAIMED = {
                 "taken from the current value or after an exiting check against the snapshot (no check-then-act "
                 "append); no shrinking call through a guard; the shareable types have no interior-mutable field other "
                 "than these locks; all shareable types are Send+Sync (compile-pass witnesses; compile_fail witnesses "
-                "with twins in the thorough tier). R-LOCK(try): a publication guarded by try_write / try_read / try_lock is not simply skipped when the lock is busy (the failure arm diverges, retries or acquires blocking) and a try-acquisition is never unwrapped.",
+                "with twins in the thorough tier). R-LOCK(try): a publication guarded by try_write / try_read / try_lock is not simply skipped when the lock is busy (the failure arm diverges, retries or acquires blocking) and a try-acquisition is never unwrapped. R-LOCK(split): a &self function does not mutate the same lock-protected value under two separate write acquisitions (placeholder, then real value).",
         "note": _TB + "rustc's Send/Sync and borrow checking for the witnesses. Not decided: linearizability as a "
                 "property of histories; that a published array is longer than the one it replaces.",
         "technique": "lock live-range dataflow on MIR + dominance of publishes on HIR + type-level Send/Sync witnesses",
